@@ -2800,8 +2800,10 @@ fn c08(rng: &mut Rng, thorough: bool, _hints: &[Vec<String>], rep: &mut Report) 
             let fits = a0i.is_finite() && wantf.iter().all(|p| p[0].abs() < lim / 4.0 && p[1] >= 0.0 && p[1] <= 1.0001 * one);
             // documented coefficient overflow (wraps silently in release): decide it from the reference's own quantised values
             let rq: Vec<[i128; 2]> = wantf.iter().map(|p| [p[0].round() as i128, p[1].round() as i128]).collect();
-            let (tmin, tmax) = (<$C>::MIN as i128 + 4, <$C>::MAX as i128 - 4);
-            let inside = |v: i128| v >= tmin && v <= tmax;
+            // margin: the implementation's quantised values may differ from the reference's by the float rounding of the
+            // normalisation, so a sum within that distance of the type's range may overflow on one side only
+            let (tmin, tmax) = (<$C>::MIN as i128, <$C>::MAX as i128);
+            let inside = |v: i128| { let m = 8 + ((v.unsigned_abs() as f64) * 64.0 * (<$T>::EPSILON as f64)) as i128; v >= tmin + m && v <= tmax - m };
             let no_overflow = fits && [rq[0][0] + rq[1][0] + rq[2][0], -(rq[1][0] + 2 * rq[2][0]), rq[2][0], -(rq[1][1] + 2 * rq[2][1]), rq[2][1], rq[0][1] + rq[1][1] + rq[2][1]].iter().all(|v| inside(*v))
                 // the exact integrator kernels sit ON the boundary (a1 = -2 ONE = MIN) and are fine
                 || fits && wantf.iter().all(|p| p[1] == 0.0 || p[1] == one) && [rq[0][0] + rq[1][0] + rq[2][0], -(rq[1][0] + 2 * rq[2][0])].iter().all(|v| inside(*v));
